@@ -134,6 +134,21 @@ def run(ctx):
                 ctx.oracle_cases += 1
                 if (r1[1] == 'T') != want or (r2[1] == 'T') != (not want):
                     ctx.failure('extra == %r with active %r evaluates to %s / != to %s' % (name, active, r1[1], r2[1]), {'name': name, 'active': active})
+        # active extras built by the owned constructor (ExtraName::new, as `pkg[Name]` parsing does) in non-normalised spellings
+        for spelled, norm_ in (('Dev', 'dev'), ('A_b', 'a-b'), ('X..Y', 'x-y'), ('dev', 'dev')):
+            for mt, want in (("extra == '%s'" % norm_, 'T'), ("extra != '%s'" % norm_, 'F'), ("extra == '%s'" % spelled, 'T'), ("os_name == 'posix' and extra == '%s'" % norm_, 'T')):
+                x, _ = sess.parse(mt)
+                if x is None:
+                    continue
+                r1 = sess.ask(['eval', str(x), markers.env_sexp(markers.DEFAULT_ENV), [S('new:' + spelled)]])
+                ctx.oracle_cases += 1
+                if r1[0] != 'ok' or r1[1] != want:
+                    ctx.failure('%s with the active extra ExtraName::new(%r) evaluates to %s, expected %s' % (mt, spelled, r1[1] if r1[0] == 'ok' else dump(r1)[:80], want), {'marker': mt, 'extra': spelled})
+            x, _ = sess.parse("os_name == 'posix' and extra == '%s'" % norm_)
+            y, r = sess.op('simpx', x, [S('new:' + spelled)]) if x is not None else (None, None)
+            z, _ = sess.parse("os_name == 'posix'")
+            if y is not None and z is not None and sess.ask(['rel', str(y), str(z)])[1] != 'T':
+                ctx.failure('simplify_extras([ExtraName::new(%r)]) does not remove extra == %r' % (spelled, norm_), {'extra': spelled})
         # top_level_extra(): `extra == e` only if e is active in every satisfying assignment, i.e. marker AND extra != e is unsatisfiable
         cmds, meta, tl_cmds, tl_meta = [], [], [], []
         for a in regs:
